@@ -66,3 +66,29 @@ Definition holds_dict (c : dcase) : bool :=
   view_okb (d_obs0 c) (aview (d_strategy c) (d_ks c) (d_vs c) a0 false) &&
   list_eqb view_okb (d_obs c) (arun (d_strategy c) (d_ks c) (d_vs c) a0 (d_ops c)) &&
   pure_ok (d_strategy c) (d_obs0 c) (d_ops c) (d_obs c).
+
+(* ---- several objects: after every step the views of all objects *)
+Record hcase := HC { h_ks : list key; h_vs : list val; h_ops : list mop; h_obs : list (bool * list view) }.
+Definition hobs_eqb (e : view -> view -> bool) (a b : bool * list view) : bool :=
+  Bool.eqb (fst a) (fst b) && list_eqb e (snd a) (snd b).
+Definition corr_multi (c : hcase) : bool :=
+  list_eqb (hobs_eqb view_eqb) (h_obs c) (hrun (h_ks c) (h_vs c) [] (h_ops c)).
+(* independence, observation against observation: a step on object i leaves every other object as it was *)
+Fixpoint others_same (i j : nat) (prev cur : list view) : bool :=
+  match prev, cur with
+  | p :: r, c :: r' => (if i =? j then true else same_state p c) && others_same i (S j) r r'
+  | _, _ => true
+  end.
+Definition others_ok (prev : list view) (m : mop) (cur : list view) : bool :=
+  match m with
+  | MOn i _ => (length prev =? length cur) && others_same i 0 prev cur
+  | _ => (S (length prev) =? length cur) && others_same (S (length prev)) 0 prev cur
+  end.
+Fixpoint indep_ok (prev : list view) (ms : list mop) (obs : list (bool * list view)) : bool :=
+  match ms, obs with
+  | m :: r, (_, cur) :: r' => others_ok prev m cur && indep_ok cur r r'
+  | _, _ => true
+  end.
+Definition holds_multi (c : hcase) : bool :=
+  list_eqb (hobs_eqb view_okb) (h_obs c) (ahrun (h_ks c) (h_vs c) [] (h_ops c)) &&
+  indep_ok [] (h_ops c) (h_obs c).
